@@ -56,6 +56,11 @@ def cases(seed, tier):
             enc = [gen.shaped_unknown(rng, 'cbc')]
         enc += rng.sample(pl['plain_enc'], rng.randrange(0 if enc else 1, 3))
         mac += rng.sample(pl['plain_mac'], rng.randrange(0 if mac else 1, 3))
+        if rng.random() < 0.25:
+            # near misses: names that merely resemble the three shapes must not trigger the rule
+            mac.append(rng.choice(['hmac-sha2-256-etm@example.com', 'hmac-etm-sha2-256', 'umac-128-etm']))
+        if rng.random() < 0.25:
+            enc.append(rng.choice(['aes128-cbc@example.com', 'cbc-aes128', 'xchacha20-poly1305@example.com', 'aes-cbc-128']))
         rng.shuffle(enc)
         rng.shuffle(mac)
         own = refmodels.MARKER[role]
